@@ -14,6 +14,9 @@ from . import text_common as X
 simfile = X.simfile
 
 LEVEL = "model_checking"
+# no reduced pass under `python -O`: the texts here include malformed ones, which the trusted tokenizer (msdparser)
+# recognises by assert statements - without them it loops; that is the dependency's business
+REDUCED_PASS = False
 
 
 def model_of(obs):
